@@ -368,7 +368,21 @@ func checkC16(c *Ctx) {
 			c.Sample(map[string]interface{}{"source": src, "output_with_markers": rl.Out})
 		}
 	}
+	var cli []CLICase
+	for i := 0; i < 12; i++ {
+		f, av := GenFile(r, fc, "")
+		src, _ := RenderFile(f, Style{R: r, Layout: i % 3})
+		if i%2 == 0 {
+			src = "\n\n# leading blank lines and a comment\n\n" + src
+		}
+		for k := 0; k < 4; k++ {
+			cli = append(cli, CLICase{ID: fmt.Sprintf("cli%d.%d", i, k), Src: src, Opts: Opts{Optimize: true, LineMarkers: k < 3, AutoVar: av, FontConfig: repoFontConfig},
+				Stdin: k == 1, ToFile: k == 2})
+		}
+	}
+	cliStates := cliCheck(c, cli, "line markers")
 	bad, states, ok := runPairCases(c, "LineMarkers", "markers.ndjson", recs)
+	states += cliStates
 	if !ok {
 		return
 	}
